@@ -19,15 +19,16 @@ import (
 )
 
 type c16dlCase struct {
-	Name     string  `json:"name"`
-	Scen     scenCfg `json:"scen"`
-	Side     string  `json:"side"`     // endpoint under test
-	Call     string  `json:"call"`     // "read" | "write"
-	Blocker  string  `json:"blocker"`  // "none" | "keyupdates" (n unacknowledged KeyUpdate flights queued first) | "silent-peer"
-	Updates  int     `json:"updates"`  // number of UpdateKeys calls started before the judged call
-	Deadline int     `json:"deadline"` // milliseconds
-	Setter   string  `json:"setter"`   // "specific" (SetReadDeadline/SetWriteDeadline) | "both" (SetDeadline)
-	Late     bool    `json:"late"`     // the deadline is set AFTER the call blocked (from another goroutine)
+	Name    string  `json:"name"`
+	Scen    scenCfg `json:"scen"`
+	Side    string  `json:"side"`    // endpoint under test
+	Call    string  `json:"call"`    // "read" | "write"
+	Blocker string  `json:"blocker"` // "none" | "keyupdates" (n unacknowledged KeyUpdate flights queued first) | "handshake" (the call runs the
+	//                                    handshake itself against a silent peer)
+	Updates  int    `json:"updates"`  // number of UpdateKeys calls started before the judged call
+	Deadline int    `json:"deadline"` // milliseconds
+	Setter   string `json:"setter"`   // "specific" (SetReadDeadline/SetWriteDeadline) | "both" (SetDeadline)
+	Late     bool   `json:"late"`     // the deadline is set AFTER the call blocked (from another goroutine)
 }
 
 type c16dlResult struct {
@@ -58,11 +59,25 @@ func runC16Deadline(idx int, cs *c16dlCase) c16dlResult {
 	res := c16dlResult{Case: idx, Name: cs.Name}
 	scen := cs.Scen
 	scen.IntervalMS = 40
-	sess, err := openSession(&scen, nil)
-	if err != nil {
-		res.Lab = err.Error()
+	var sess *dataSess
+	if cs.Blocker == "handshake" {
+		// the call is made on a connection whose handshake has not started: Read / Write run it themselves, and the peer
+		// stays silent (nothing is delivered), so the call is blocked inside that implicit handshake
+		r := newLabRun()
+		if err := r.setup(&scen, &scenStores{}); err != nil {
+			res.Lab = err.Error()
 
-		return res
+			return res
+		}
+		sess = &dataSess{r: r, sc: &scen, reads: map[string]*readLog{}}
+	} else {
+		var err error
+		sess, err = openSession(&scen, nil)
+		if err != nil {
+			res.Lab = err.Error()
+
+			return res
+		}
 	}
 	defer sess.close()
 	p := sess.peer(cs.Side)
